@@ -87,13 +87,21 @@ NestExpr(op1, op2) ==
   LET inner == NumExpr(op2, "vars")
   IN NumExprA(op1, inner, V(1), O2(0, V(2), N(1)), O2(28, inner, N(1)), O2(23, V(1), N(1)), O2(24, inner, V(2)))
 
-LogOps == {"lt", "le", "eq", "ge", "gt", "ne", "and", "or", "not", "iff", "impl", "implelse", "forall", "exists",
+\* half-integer constant v2/2 (the model is then evaluated on the half-integer grid, D = 2)
+H(v2) == [k |-> "h", v2 |-> v2]
+\* comparisons of the first operand with 3/2: an integer-valued operand never equals it, strict and
+\* non-strict forms must be rounded differently
+HalfOps == {"lth", "leh", "eqh", "geh", "gth", "neh"}
+LogOps == HalfOps \cup
+          {"lt", "le", "eq", "ge", "gt", "ne", "and", "or", "not", "iff", "impl", "implelse", "forall", "exists",
            "alldiff", "nalldiff", "atleast", "atmost", "exactly", "natleast", "natmost", "nexactly", "eqmax", "ifeq"}
 LogExpr(op, sh) ==
   LET a == Arg(sh, 1)  b == Arg(sh, 2)  c == Arg(sh, 3)
       p == LArg(sh, 1) q == LArg(sh, 2) r == LArg(sh, 3)
       cnt == ON(59, <<p, q, r>>)
   IN CASE op = "lt" -> O2(22, a, b)  [] op = "le" -> O2(23, a, b)  [] op = "eq" -> O2(24, a, b)
+       [] op = "lth" -> O2(22, a, H(3)) [] op = "leh" -> O2(23, a, H(3)) [] op = "eqh" -> O2(24, a, H(3))
+       [] op = "geh" -> O2(28, a, H(3)) [] op = "gth" -> O2(29, a, H(3)) [] op = "neh" -> O2(30, a, H(3))
        [] op = "ge" -> O2(28, a, b)  [] op = "gt" -> O2(29, a, b)  [] op = "ne" -> O2(30, a, b)
        [] op = "and" -> O2(21, p, q) [] op = "or" -> O2(20, p, q)  [] op = "not" -> O1(34, p)
        [] op = "iff" -> O2(73, p, q)
@@ -114,7 +122,10 @@ LogExpr(op, sh) ==
 
 \* how a numeric expression E is used
 NumUses == {"con_le", "con_ge", "con_eq", "con_range", "objmin", "objmax", "lcon_lt", "lcon_ne", "lcon_noteq",
-            "shared", "inabs", "inor"}
+            "shared", "inabs", "inor", "lcon_lth", "iff_gth"}
+\* uses with a half-integer constant need the half-integer grid, on which products are not evaluated
+HalfUses == {"lcon_lth", "iff_gth"}
+NoHalfOps == {"mul", "sqr", "pow3"}
 \* how a logical expression B is used
 LogUses == {"lcon", "lnot", "lor", "countcon", "ifobj", "liff", "shared"}
 
@@ -143,6 +154,8 @@ NumModel(op, sh, pat, use, k) ==
        [] use = "shared" -> Model(pat, <<Con(k, "inf", E)>>, <<O2(20, O2(23, E, N(k + 1)), O2(28, V(2), N(1)))>>, <<Obj(FALSE, E)>>)
        [] use = "inabs" -> Model(pat, <<Con("-inf", k + 1, O1(15, O2(1, E, N(1))))>>, <<>>, <<SumObj>>)
        [] use = "inor" -> Model(pat, <<>>, <<O2(20, O2(28, E, N(k)), O2(23, V(2), N(0)))>>, <<SumObj>>)
+       [] use = "lcon_lth" -> Model(pat, <<>>, <<O2(22, E, H(2 * k + 1))>>, <<SumObj>>)                            \* E < k + 1/2
+       [] use = "iff_gth" -> Model(pat, <<>>, <<O2(73, O2(28, V(2), N(1)), O2(29, E, H(2 * k + 1)))>>, <<SumObj>>)  \* x2 >= 1 <==> E > k + 1/2
 
 LogModel(op, sh, pat, use) ==
   LET B == LogExpr(op, sh)
@@ -172,17 +185,34 @@ SOSModel(skind, pat, k) ==
   [Model(pat, <<LinCon(k, "inf", << <<0, 1>>, <<1, 1>>, <<2, 1>> >>)>>, <<>>, <<LinObj(TRUE, << <<0, 1>>, <<1, 2>>, <<2, 1>> >>)>>)
      EXCEPT !.sos = <<[kind |-> skind, items |-> << <<0, 1>>, <<1, 2>>, <<2, 3>> >>]>>]
 
+\* second-order cone shapes over x0, x1, x2 (recognised and passed as cones when the solver takes them,
+\* as quadratic constraints otherwise); k = 1 shifts the right-hand side so that it is NOT a cone;
+\* the patterns include domains where x2 (or x1) may be negative, where the quadratic form is not a cone either
+ConeOps == {"soc", "socge", "socc", "rot", "rotge", "soc2"}
+ConeCon(op, k) ==
+  LET s0 == O1(77, V(0))  s1 == O1(77, V(1))  s2 == O1(77, V(2))
+  IN CASE op = "soc"   -> Con("-inf", k, O2(1, O2(0, s0, s1), s2))                                   \* x0^2 + x1^2 <= x2^2
+       [] op = "socge" -> Con(0 - k, "inf", O2(1, s2, O2(0, s0, s1)))                                \* x2^2 >= x0^2 + x1^2
+       [] op = "socc"  -> Con("-inf", k, O2(1, O2(0, O2(2, N(4), s0), s1), O2(2, N(9), s2)))         \* 4 x0^2 + x1^2 <= 9 x2^2
+       [] op = "rot"   -> Con("-inf", k, O2(1, s0, O2(2, O2(2, N(2), V(1)), V(2))))                  \* x0^2 <= 2 x1 x2
+       [] op = "rotge" -> Con(0 - k, "inf", O2(1, O2(2, O2(2, N(2), V(1)), V(2)), s0))               \* 2 x1 x2 >= x0^2
+       [] op = "soc2"  -> Con("-inf", k, O2(1, s0, s2))                                              \* x0^2 <= x2^2
+ConeModel(op, pat, use, k) ==
+  IF use = "con" THEN Model(pat, <<ConeCon(op, k)>>, <<>>, <<SumObj>>)
+  ELSE Model(pat, <<ConeCon(op, k), LinCon(1, "inf", << <<0, 1>>, <<1, 1>>, <<2, 1>> >>)>>, <<>>, <<LinObj(TRUE, << <<0, 1>>, <<1, 1>>, <<2, -1>> >>)>>)
+
 VARIABLES kind, op, sh, pat, use, k
 vars == <<kind, op, sh, pat, use, k>>
 
 Init ==
   /\ Layer = "exhaustive"
   /\ pat \in Patterns
-  /\ \/ (kind = "num" /\ sh \in Shapes /\ op \in NumOps /\ use \in NumUses /\ k \in {0, 1, 2})
+  /\ \/ (kind = "num" /\ sh \in Shapes /\ op \in NumOps /\ use \in NumUses /\ k \in {0, 1, 2} /\ (use \in HalfUses => op \notin NoHalfOps))
      \/ (kind = "log" /\ sh \in Shapes /\ op \in LogOps /\ use \in LogUses /\ k = 0)
      \/ (kind = "dvar" /\ sh \in Shapes /\ op \in NumOps /\ use = "dvar" /\ k \in {0, 1, 2})
      \/ (kind = "compl" /\ sh \in Shapes /\ op \in {"add", "sub", "mulc", "neg", "sum3"} /\ use = "compl" /\ k = 0)
      \/ (kind = "sos" /\ op \in {"sos1", "sos2"} /\ sh = "vars" /\ use = "sos" /\ k \in {0, 1, 2})
+     \/ (kind = "cone" /\ op \in ConeOps /\ sh = "vars" /\ use \in {"con", "con2"} /\ k \in {0, 1})
      \/ (kind = "nest" /\ op \in NestOuter /\ sh \in NestInner /\ use \in {"con_le", "con_ge", "objmin", "lcon_lt", "shared", "inor"} /\ k \in {0, 1})
 Next == UNCHANGED vars
 
@@ -201,5 +231,6 @@ TheModel == CASE kind = "num" -> NumModel(op, sh, pat, use, k)
               [] kind = "compl" -> ComplModel(op, sh, pat, k)
               [] kind = "sos" -> SOSModel(IF op = "sos1" THEN 1 ELSE 2, pat, k)
               [] kind = "nest" -> NestModel(op, sh, pat, use, k)
+              [] kind = "cone" -> ConeModel(op, pat, use, k)
 Emit == PrintT(<<"CASE", ToJson([kind |-> kind, op |-> op, sh |-> sh, pat |-> pat, use |-> use, k |-> k, m |-> TheModel])>>)
 =============================================================================
